@@ -137,15 +137,19 @@ class HierDriver(explore.Driver):
         out = []
         edits = []
         tf = self.focus == "temp"
-        for L in range(1 if tf else self.levels):
+        deep = self.focus == "deep"     # root windows + deepest exclusions
+        for L in range(1 if (tf or deep) else self.levels):
             for w in (("A", None) if tf else ("A", "B", "C", "D", None)):
                 if st.window[L] != w:
                     edits.append((["range", L, w], 0))
-        edits.append((["fps"], 0 if tf else 1))
+        if not deep:
+            edits.append((["fps"], 0 if tf else 1))
         if st.synced:
             idx, filt = self.root_idx(st)
             for L in range(self.levels):
                 ri = idx[L]
+                if deep and L != self.levels - 1:
+                    continue
                 for i in (() if tf else self.manual_ids):
                     if i < len(ri):
                         r = int(ri[i])
@@ -158,7 +162,7 @@ class HierDriver(explore.Driver):
                             if len(vis) < 2:
                                 continue
                         edits.append((["manual", L, i], 0))
-                if len(ri):
+                if len(ri) and not deep:
                     for v in (0, 1):
                         edits.append((["temp", L, v], 0 if tf else 1))
         for op, dev in edits:
@@ -377,7 +381,12 @@ def run(ctx):
                             manual_ids=(0,)), 4, 0),
                 ("3-levels-temp-focus",
                  HierDriver(levels=3, seed=ctx.seed, noapply=False,
-                            focus="temp"), 3, 0)]
+                            focus="temp"), 3, 0),
+                # depth of the hierarchy: root windows and exclusions in
+                # the great-grandchild only
+                ("5-levels-deep-focus",
+                 HierDriver(levels=5, seed=ctx.seed, noapply=False,
+                            manual_ids=(0, 1), focus="deep"), 4, 0)]
     else:
         plan = [("3-levels", HierDriver(levels=3, seed=ctx.seed), 4, 2),
                 ("hdf5-root", HierDriver(levels=3, noapply=False, **hd),
@@ -389,7 +398,10 @@ def run(ctx):
                             manual_ids=(0,)), 4, 0),
                 ("3-levels-temp-focus",
                  HierDriver(levels=3, seed=ctx.seed, noapply=True,
-                            focus="temp"), 4, 1)]
+                            focus="temp"), 4, 1),
+                ("5-levels-deep-focus",
+                 HierDriver(levels=5, seed=ctx.seed, noapply=True,
+                            manual_ids=(0, 1, 2), focus="deep"), 5, 1)]
     for name, drv, depth, dev in plan:
         stats, vs = explore.bfs(drv, max_depth=depth, max_dev=dev,
                                 log=ctx.log)
